@@ -185,6 +185,29 @@ fn history() {
             }
         }
     }
+    // ... also when the code sits under a different id, was stored after other codes, and the chain has
+    // a different number of contracts: only checksum, creator and salt count
+    let cs = [0x5Au8; 32];
+    let id_a = app.store_code_with_id(creator.clone(), 424_242, sc::contract_with_checksum(cs)).unwrap();
+    let mut app3 = App::default();
+    let _ = app3.store_code(sc::contract());
+    let _ = app3.store_code(sc::contract_v2());
+    let id_b = app3.store_code_with_id(addr("someone-else"), 77, sc::contract_with_checksum(cs)).unwrap();
+    check_native("supplied_checksum_is_reported", app.wrap().query_wasm_code_info(id_a).map(|c| c.checksum.as_slice().to_vec()).ok() == Some(cs.to_vec()), || "checksum".into());
+    let x1 = app.instantiate2_contract(id_a, user.clone(), &Script::new(), &[], "x", None, Binary::from(b"s".to_vec()));
+    let x2 = app3.instantiate2_contract(id_b, user.clone(), &Script::new(), &[], "y", Some(user.to_string()), Binary::from(b"s".to_vec()));
+    match (x1, x2) {
+        (Ok(p), Ok(q)) => {
+            check_native("salted_address_depends_only_on_checksum_creator_salt", p == q, || format!("{} (code id {}) vs {} (code id {})", p, id_a, q, id_b));
+            // a different creator gives a different address
+            if let Ok(r) = app3.instantiate2_contract(id_b, creator.clone(), &Script::new(), &[], "z", None, Binary::from(b"s".to_vec())) {
+                check_native("salted_address_depends_on_creator", r != q, || format!("{}", r));
+            }
+        }
+        (a_, b_) => {
+            check_native("instantiate2_succeeds", false, || format!("{:?} {:?}", a_.err().map(|e| e.to_string()), b_.err().map(|e| e.to_string())));
+        }
+    }
     witness("end");
 }
 
